@@ -66,12 +66,14 @@ template <class T, size_t N, size_t NM> static void run(const std::string& op, c
       static P* y = alloc_aligned<P, 32>(6);
       P &d = y[0], &e = y[1], &t1 = y[2], &t2 = y[3], &r1 = y[4], &r2 = y[5];
       d = a - b; e = d + d;
+      // (compared word by word: the library's own != does not compile in SIMD builds when the degree is below the vector width)
+      auto differ = [](P const& u, P const& w) { for (size_t cm = 0; cm < P::nmoduli; cm++) for (size_t i = 0; i < P::degree; i++) if (u(cm, i) != w(cm, i)) return true; return false; };
       bool okc = true;
-      r1 = (a + b) - (b + b); if (r1 != d) okc = false;
-      r1 = (a - b) - (b - a); if (r1 != e) okc = false;
-      t1 = b + b; r1 = a - (b + b); r2 = a - t1; if (r1 != r2) okc = false;
-      r1 = (a + a) - a; if (r1 != a) okc = false;
-      t1 = a + b; t2 = b - a; r1 = (a + b) + (b - a); r2 = t1 + t2; if (r1 != r2) okc = false;
+      r1 = (a + b) - (b + b); if (differ(r1, d)) okc = false;
+      r1 = (a - b) - (b - a); if (differ(r1, e)) okc = false;
+      t1 = b + b; r1 = a - (b + b); r2 = a - t1; if (differ(r1, r2)) okc = false;
+      r1 = (a + a) - a; if (differ(r1, a)) okc = false;
+      t1 = a + b; t2 = b - a; r1 = (a + b) + (b - a); r2 = t1 + t2; if (differ(r1, r2)) okc = false;
       if (!okc) os << "COMPOUND-EXPRESSION-DISAGREES ";
     }
   } else os << "badop";
